@@ -741,6 +741,11 @@ func (e *evalCtx) callExpr(x *sx) sval {
 	case "evcount":
 		hv := t.h.reg("ghost:"+args[0].val+".n", "Int")
 		return intv(t.h.get(e.st, hv))
+	case "called":
+		// called("Name"): this activation has called a function / method of that name
+		tag := t.c.declare("callee:"+args[0].val, "Int")
+		hv := t.h.reg("ghost:called", "(Array Int Bool)")
+		return boolv(sel(t.h.get(e.st, hv), tag))
 	case "spawned":
 		// spawned("name"): a goroutine / timer callback of that function was started
 		tag := t.c.declare("spawn:"+args[0].val, "Int")
